@@ -139,6 +139,17 @@ def run_graph(job):
                 exp = [lines[k].split("\t")[0] for k in range(len(lines)) if line_nodes[k] & {qa, qb}]
                 full = (lines_of(read_out(o)) == [S[k] for k in range(len(lines)) if line_nodes[k] & {qa, qb}]) if os.path.exists(o) else False
                 sel.append({"ns": [qa, qb], "status": r2["status"], "got": got, "exp": exp, "same_as_whole_file_conversion": full})
+            # ... and a REGION spanning two reference segments, the records read from standard output (no -o): nothing but records
+            ref = sorted((x for x in segs if segs[x]["sn"] == "chr1" and segs[x]["sr"] == 0), key=lambda x: segs[x]["so"])
+            if r["status"] == "ok" and len(ref) >= 2:
+                a, b = segs[ref[0]]["so"], segs[ref[1]]["so"] + segs[ref[1]]["ln"] - 1
+                under = {x for x in segs if segs[x]["sn"] == "chr1" and segs[x]["so"] <= b and a < segs[x]["so"] + segs[x]["ln"]}
+                exp_k = [k for k in range(len(lines)) if line_nodes[k] & under]
+                if exp_k:
+                    r3 = run_cli(["view", u, "-r", f"chr1:{a}-{b}", "-g", gfa, "-f", "stable"], timeout=120)
+                    outl = lines_of(r3["stdout"])
+                    sel.append({"ns": ["region", f"chr1:{a}-{b}"], "status": r3["status"], "got": [l.split("\t")[0] for l in outl], "exp": [lines[k].split("\t")[0] for k in exp_k],
+                                "same_as_whole_file_conversion": outl == [S[k] for k in exp_k]})
             if r["status"] != "ok":
                 sel.append({"ns": [], "status": "index_" + r["status"], "got": [], "exp": ["x"], "same_as_whole_file_conversion": False})
         for wid, w, a, b in spans:
